@@ -66,10 +66,12 @@ Example C19_cousins_refuted_binary :
   cousins_ok 0 1 1 (reingold_tilford unit_params k1b_tree) = false.
 Proof. split; vm_compute; reflexivity. Qed.
 
-(* Cousin separation holds under the shape guard `cousin_guard` of Spec/PC19.v:
-   (a) no node has more than two children, and (b) for every node with two children [a; b] the
-   walk from a along right-most children-with-children reaches the deepest level of a, and the
-   walk from b along left-most children-with-children reaches the deepest level of b. *)
+(* Cousin separation holds under the shape guard `cousin_guard` of Spec/PC19.v: every node
+   (a) has at most one child that itself has children (any fan-out), or
+   (b) has exactly two children [a; b], the walk from a along right-most children-with-children
+       reaches the deepest level of a, and the walk from b along left-most children-with-children
+       reaches the deepest level of b.
+   (4046 of the 6918 ordered trees with <= 10 nodes satisfy it.) *)
 Theorem C19_cousins_partial : forall eps p t, 0 <= eps -> params_pos p -> cousin_guard t = true ->
   cousins_ok eps (p_ss p) (p_sts p) (reingold_tilford p t) = true.
 Proof. exact rt_cousins_partial. Qed.
@@ -94,12 +96,15 @@ Proof. exact subtree_shift_fuel. Qed.
 Print Assumptions C19_fuel_sufficient.
 
 (* the hypotheses are satisfiable by non-trivial inputs: the complete binary tree with 15 nodes
-   (three levels of contour comparison), and an irregular 14-node tree *)
+   (three levels of contour comparison), an irregular 14-node tree, and a wide caterpillar *)
 Definition bin3 : tree :=
   let b1 := nd [leaf; leaf] in let b2 := nd [b1; b1] in nd [b2; b2].
 Definition irregular : tree :=
   nd [nd [leaf; nd [nd [leaf; leaf]; leaf]]; nd [nd [leaf; nd [leaf]]; leaf]].
+Definition caterpillar : tree :=
+  nd [leaf; leaf; nd [leaf; nd [leaf; leaf; leaf; leaf]; leaf]; leaf; leaf].
 Example C19_guard_satisfiable :
   params_pos (PR (1 # 2) (3 # 2) 2 (1 # 4) 0) /\ cousin_guard bin3 = true /\ cousin_guard irregular = true
-  /\ tsize bin3 = 15%nat /\ tsize irregular = 14%nat.
+  /\ cousin_guard caterpillar = true
+  /\ tsize bin3 = 15%nat /\ tsize irregular = 14%nat /\ tsize caterpillar = 13%nat.
 Proof. split; [repeat split|]. repeat split; vm_compute; reflexivity. Qed.
